@@ -131,9 +131,10 @@ PROPS["C18"]["steps"].append(
         H("c18_b64_decode_inverts_n4", "bounded", "decode(b64(x)) == x, |x| = 4 (two groups)", bound="|x| = 4", timeout=600),
         H("c18_b64_decode_inverts_n6", "bounded", "decode(b64(x)) == x, |x| = 6 (two groups)", bound="|x| = 6", timeout=600),
     ]))
-# separate step with 2 jobs: the CBMC output of a SHA-1 harness is large enough for kani-driver itself to run out of memory when many are parsed in parallel (measured)
+# separate step, one harness at a time, 40 GB address-space limit: the CBMC output of a SHA-1 harness (and the trace of a failing one)
+# is large enough for kani-driver itself to run out of memory under the default 14 GB limit when several are parsed in parallel (measured)
 PROPS["C18"]["steps"].append(
-    dict(kind="kani", crate="humphrey_ws", module="in_ws", tag="c18sha", jobs=2, harnesses=[
+    dict(kind="kani", crate="humphrey_ws", module="in_ws", tag="c18sha", jobs=1, mem_gb=40, harnesses=[
         H("c18_sha1_pad_n%03d" % n, "bounded", "the REAL SHA1Hash::hash on one %d-byte message equals an independent RFC 3174 transcription (padding rule: 0x80, zeros, "
           "64-bit length, block count) -- the padding depends on the length only, so this decides section 4 of the real code at this length" % n,
           bound="message length %d, one fixed content" % n, tier=("quick" if n in (55, 56) else "thorough"), timeout=1800)
